@@ -165,7 +165,17 @@ def one_to_one_with_groupby(repo, fi, expr, depth=0):
             callee = cs[0].func
             ret = single_return(callee)
             if ret is None:
-                return False, f"{callee.qualname} is not single-return"
+                verdict, why, pname = loop_built_one_to_one(callee)
+                if verdict is None:
+                    raise AnalysisError(f"{callee.module.relpath}:{callee.qualname}: {why}; whether it keeps one task per touched chunk is not decided")
+                if verdict is False:
+                    return False, f"{callee.qualname}: {why}"
+                from ..interproc import bind_args
+                bound, _ = bind_args(cs[0], expr)
+                if pname in bound:
+                    ok2, why2 = one_to_one_with_groupby(repo, fi, bound[pname], depth + 1)
+                    return ok2, f"{callee.qualname}({pname}: {why2})"
+                raise AnalysisError(f"{callee.qualname}: cannot bind {pname}")
             # which parameter carries the collection? follow the returned expression inside the callee
             ok, why = one_to_one_with_groupby(repo, callee, ret, depth + 1)
             if ok:
@@ -180,6 +190,63 @@ def one_to_one_with_groupby(repo, fi, expr, depth=0):
                     return ok2, f"{callee.qualname}({pname}: {why2})"
             return False, f"{callee.qualname}: {why}"
     return False, f"unrecognised: {short(expr, 60)}"
+
+
+def loop_built_one_to_one(callee):
+    """a function that builds its result list in a loop over one parameter:
+    -> (True, why, param) if every iteration appends exactly one entry and nothing else touches the list,
+       (False, why, param) if an iteration can skip the append, append twice, or overwrite/merge an earlier entry,
+       (None, why, None) if the shape is not recognised"""
+    body = [st for st in callee.node.body if not (isinstance(st, ast.Expr) and isinstance(st.value, ast.Constant))]
+    rets = [n for n in callee.own_nodes() if isinstance(n, ast.Return)]
+    if len(rets) != 1 or not isinstance(rets[0].value, ast.Name):
+        return None, "does not return a single list variable", None
+    out = rets[0].value.id
+    init = [st for st in body if isinstance(st, ast.Assign) and isinstance(st.targets[0], ast.Name) and st.targets[0].id == out]
+    loops = [st for st in body if isinstance(st, ast.For)]
+    if len(init) != 1 or not isinstance(init[0].value, ast.List) or init[0].value.elts or len(loops) != 1:
+        return None, "result list is not built as `out = []` followed by one for-loop", None
+    loop = loops[0]
+    it = loop.iter
+    while isinstance(it, ast.Call) and isinstance(it.func, ast.Name) and it.func.id in ("enumerate", "list", "sorted", "iter") and it.args:
+        it = it.args[0]
+    if isinstance(it, ast.Call) and isinstance(it.func, ast.Attribute) and it.func.attr in ("items", "values"):
+        it = it.func.value
+    if not (isinstance(it, ast.Name) and it.id in callee.params):
+        return None, f"the loop iterates {norm(loop.iter)}, not a parameter", None
+    pname = it.id
+    others = []
+    for n in ast.walk(loop):
+        if isinstance(n, ast.Subscript) and isinstance(n.ctx, (ast.Store, ast.Del)) and isinstance(n.value, ast.Name) and n.value.id == out:
+            others.append(f"overwrites {norm(n)}")
+        if isinstance(n, ast.Call) and isinstance(n.func, ast.Attribute) and isinstance(n.func.value, ast.Name) and n.func.value.id == out and n.func.attr in ("pop", "extend", "insert", "remove", "clear"):
+            others.append(f"{out}.{n.func.attr}(...)")
+    if others:
+        return False, f"an iteration {others[0]} (entries of different chunk groups are merged or dropped)", pname
+
+    def appends(stmts):
+        """(min, max) number of appends executed by a statement list, None if a path leaves early"""
+        lo = hi = 0
+        for st in stmts:
+            if isinstance(st, ast.Expr) and isinstance(st.value, ast.Call) and isinstance(st.value.func, ast.Attribute) and st.value.func.attr == "append" \
+                    and isinstance(st.value.func.value, ast.Name) and st.value.func.value.id == out:
+                lo += 1
+                hi += 1
+            elif isinstance(st, ast.If):
+                a, b = appends(st.body), appends(st.orelse)
+                lo += min(a[0], b[0])
+                hi += max(a[1], b[1])
+            elif isinstance(st, (ast.Continue, ast.Break, ast.Return)):
+                return lo, hi
+            elif isinstance(st, (ast.For, ast.While)):
+                a = appends(st.body)
+                hi += 2 * a[1]
+        return lo, hi
+
+    lo, hi = appends(loop.body)
+    if lo == hi == 1:
+        return True, "one append per iteration", pname
+    return False, f"an iteration appends between {lo} and {hi} entries", pname
 
 
 def _mapped_param(repo, callee, ret, depth=0):
